@@ -4418,14 +4418,17 @@ where
         chars.len()
     };
 
-    if check(new)? {
-        let mut tail = chars.split_off(index);
-        let mut middle = new.chars().collect::<Vec<char>>();
+    let mut tail = chars.split_off(index);
+    let mut middle = new.chars().collect::<Vec<char>>();
 
-        chars.append(&mut middle);
-        chars.append(&mut tail);
+    chars.append(&mut middle);
+    chars.append(&mut tail);
 
-        Ok(chars.iter().collect())
+    // the whole result is validated: a forbidden sequence (`]]>`, `--`) can straddle the
+    // boundary between the old data and the inserted fragment.
+    let result = chars.iter().collect::<String>();
+    if check(result.as_str())? {
+        Ok(result)
     } else {
         Err(error::Error::InvalidData(new.to_string()))
     }
